@@ -12,6 +12,9 @@ A scenario (JSON-able dict):
   dirs     [rel, ...] extra directories
   in       {"kind": single|list|glob, "paths": [rel-or-pattern...], "relative": bool}
   out      null | {"kind": same|dir|dirnoslash|file|newdir, "path": rel, "relative": bool}
+           | {"kind": none|empty|emptyfmt}   (out: None / out: '' / out: '{outDir}' with outDir == '')
+  cwd      rel directory the step runs in (default: the root when a path is relative); relative paths are
+           then spelled relative to it
   enc      {"encoding"|"encodingIn"|"encodingOut": name}
   matched  [rel...]   files `in` must match, by construction of the generator
   links    [[symlink|hardlink|copy, name, target], ...]   created after the files (target relative to root)
@@ -432,32 +435,52 @@ def instrumented(rec):
 # one run of the real step
 # --------------------------------------------------------------------------
 
+FALSY_OUT = ('none', 'empty', 'emptyfmt')
+
+
 def build_context(scn, root, bomb, inert):
     step = scn['step']
     key = STEPS[step][1]
     relative = scn['in'].get('relative')
+    cwd = scn.get('cwd')
+
+    def spell(rel, relative):
+        if not relative:
+            return os.path.join(root, rel)
+        if cwd:     # relative to the directory the step runs in
+            return os.path.relpath(os.path.join(root, rel), os.path.join(root, cwd))
+        return rel
 
     def pth(rel, relative=relative):
-        return rel if relative else os.path.join(root, rel)
+        return spell(rel, relative)
 
     paths = [pth(p) for p in scn['in']['paths']]
     cfg = {'in': paths[0] if scn['in']['kind'] != 'list' else paths}
     out = scn.get('out')
+    ctx = dict(scn.get('ctx') or {})
     if out:
         k = out['kind']
         if 'relative' in out:
             def pth(rel, relative=out['relative']):    # noqa: F811 - out spelled independently of in
-                return rel if relative else os.path.join(root, rel)
+                return spell(rel, relative)
         if k in ('same', 'file'):
             cfg['out'] = pth(out['path'])
         elif k in ('dir', 'newdir'):
             cfg['out'] = pth(out['path']).rstrip('/') + '/'
         elif k == 'dirnoslash':
             cfg['out'] = pth(out['path']).rstrip('/') or pth('.')
+        elif k == 'none':
+            cfg['out'] = None
+        elif k == 'empty':
+            cfg['out'] = ''
+        elif k == 'emptyfmt':
+            cfg['out'] = '{outDir}'
+            ctx['outDir'] = ''
+        else:
+            raise ValueError(k)
     cfg.update(scn.get('enc') or {})
     if step == 'filereplace':
         cfg['replacePairs'] = dict(scn.get('replace') or {'l': 'L'})
-    ctx = dict(scn.get('ctx') or {})
     ctx['bomb'] = bomb
     if inert:
         ctx['missing'] = 'M'
@@ -469,7 +492,7 @@ def build_context(scn, root, bomb, inert):
 
 
 def needs_cwd(scn):
-    return bool(scn['in'].get('relative') or (scn.get('out') or {}).get('relative'))
+    return bool(scn.get('cwd') is not None or scn['in'].get('relative') or (scn.get('out') or {}).get('relative'))
 
 
 def run_step(scn, root, fault=None, inert=False, kill_fd=None):
@@ -485,7 +508,7 @@ def run_step(scn, root, fault=None, inert=False, kill_fd=None):
         rec.probe = os.path.join(root, scn['probe']['path'])
     cwd = os.getcwd()
     if needs_cwd(scn):
-        os.chdir(root)
+        os.chdir(os.path.join(root, scn.get('cwd') or ''))
     try:
         # ruamel's emitter prints repr(data) to stdout when stream.write raises: keep it off the check's output
         with instrumented(rec), contextlib.redirect_stdout(io.StringIO()):
@@ -517,13 +540,23 @@ def run_killed(scn, root, fault):
             os._exit(code)
     os.close(w)
     buf = b''
-    while True:
-        b = os.read(r, 65536)
-        if not b:
-            break
-        buf += b
-    os.close(r)
-    _, status = os.waitpid(pid, 0)
+    reaped = False
+    try:
+        while True:
+            b = os.read(r, 65536)
+            if not b:
+                break
+            buf += b
+        os.close(r)
+        _, status = os.waitpid(pid, 0)
+        reaped = True
+    finally:
+        if not reaped:          # the caller's time limit fired: the child must not outlive the case
+            try:
+                os.kill(pid, 9)
+                os.waitpid(pid, 0)
+            except OSError:
+                pass
     code = os.waitstatus_to_exitcode(status)
     data = json.loads(buf.decode()) if buf else {'events': [], 'jobs': []}
     if code == KILL_EXIT:
@@ -548,7 +581,7 @@ def glob_order(scn, root):
 
 def canonical_out(scn, src):
     out = scn.get('out')
-    if not out:
+    if not out or out['kind'] in FALSY_OUT:
         return None
     k = out['kind']
     if k in ('same', 'file'):
@@ -560,11 +593,29 @@ def canonical_out(scn, src):
 def out_spelling(scn, src):
     """The out path of the job for `src` as the code spells it, relative to root (not normalised)."""
     out = scn.get('out')
-    if not out:
+    if not out or out['kind'] in FALSY_OUT:
         return None
     if out['kind'] in ('same', 'file'):
         return out['path']
     return os.path.join(out['path'].rstrip('/') or '.', os.path.basename(src))
+
+
+def out_option(scn, root):
+    """The step's `out` option as the model's `planOut` takes it: the value (None: absent / None; '' for the
+    empty kinds; else the root-relative spelling, directories with the trailing separator when the step is
+    given one), whether it is an existing directory (read from the scratch tree) and the number of paths `in`
+    matched (stdlib glob, directories included)."""
+    out = scn.get('out')
+    nin = 0
+    for p in scn['in']['paths']:
+        nin += len(globmod.glob(os.path.join(root, p), recursive=True))
+    if not out or out['kind'] == 'none':
+        return {'value': None, 'isdir': False, 'nin': nin}
+    if out['kind'] in ('empty', 'emptyfmt'):
+        # Path('') is the working directory
+        return {'value': '', 'isdir': True, 'nin': nin}
+    value = out['path'].rstrip('/') + '/' if out['kind'] in ('dir', 'newdir') else out['path']
+    return {'value': value, 'isdir': os.path.isdir(os.path.join(root, out['path'])), 'nin': nin}
 
 
 def link_table(scn, root, order):
@@ -594,6 +645,7 @@ def observe(scn):
         before = audit(run_root)
         order = glob_order(scn, run_root)
         links = link_table(scn, run_root, order)
+        outopt = out_option(scn, run_root)
         names_before = listing(run_root)
         probe = scn.get('probe')
         probe_before = read_hex(os.path.join(run_root, probe['path'])) if probe else None
@@ -613,7 +665,7 @@ def observe(scn):
             events, jobs, seen = rec.events, rec.jobs, rec.seen
         after = audit(run_root)
         return {'before': before, 'after': after, 'order': order, 'ref': ref, 'outcome': outcome,
-                'events': events, 'jobs': jobs, 'links': links, 'names_before': names_before,
+                'events': events, 'jobs': jobs, 'links': links, 'outopt': outopt, 'names_before': names_before,
                 'names_after': listing(run_root), 'seen': seen, 'probe_before': probe_before, 'src_entry': src_entry,
                 'probe_after': read_hex(os.path.join(run_root, probe['path'])) if probe else None}
     finally:
